@@ -537,8 +537,8 @@ pub fn run(ctx: &Ctx, rep: &mut Report) {
     st.class_n("schedules enumerated exhaustively", total as u64);
     st.class_n("request shapes", shapes.len() as u64);
     rep.absorb("exhaustive", SubOutcome { stats: st, failures, wall_s: started.elapsed().as_secs_f64() });
-    rep.absorb("random", run_random("random", ctx.seed, ctx.tier.pick(1500, 40_000), false));
-    rep.absorb("eviction", run_random("eviction", ctx.seed, ctx.tier.pick(300, 9_000), true));
+    rep.absorb("random", run_random("random", ctx.seed, ctx.tier.pick(5000, 60_000), false));
+    rep.absorb("eviction", run_random("eviction", ctx.seed, ctx.tier.pick(600, 9_000), true));
     if ctx.tier == Tier::Thorough {
         rep.absorb("stress", stress(ctx.seed, 16, 6000));
     } else {
